@@ -457,6 +457,56 @@ fn lookup_all(ids: &mut Ids, out: &mut Out, m: &Model, bytes: &[u8], mem: &MDBIn
     }
 }
 
+/// by-hash lookups in an exported (possibly keyed) shard: every file / xorb of the source, and absent hashes
+#[allow(clippy::too_many_arguments)]
+fn export_lookups(ids: &mut Ids, out: &mut Out, src: &Model, outsid: &str, bytes: &[u8], incl_file: bool, incl_cas: bool, pool: &Pool, rng: &mut Rng_) {
+    let Ok(si) = MDBShardInfo::load_from_reader(&mut Cursor::new(bytes)) else { return };
+    if incl_file {
+        let mut fq: Vec<MerkleHash> = src.files.iter().map(|f| f.h).collect();
+        for _ in 0..3 {
+            fq.push(pool.file_hashes[rng.gen_range(0..pool.file_hashes.len())]);
+        }
+        for h in &fq {
+            let (res, rec) = match guarded(|| si.get_file_reconstruction_info(&mut Cursor::new(bytes), h)) {
+                Ok(Ok(Some(fi))) => ("hit".to_string(), file_json(ids, &fi)),
+                Ok(Ok(None)) => ("none".to_string(), json!({})),
+                Ok(Err(e)) => (format!("err {e:?}"), json!({})),
+                Err(p) => (format!("panic {p}"), json!({})),
+            };
+            out.ev("ShExportLookup", json!({"src": src.sid, "out": outsid, "kind": "file", "h": ids.h(h), "res": res, "rec": rec}));
+        }
+    }
+    if incl_cas {
+        let mut xq: Vec<MerkleHash> = src.xorbs.iter().map(|x| x.h).collect();
+        for _ in 0..3 {
+            xq.push(pool.xorb_hashes[rng.gen_range(0..pool.xorb_hashes.len())]);
+        }
+        for h in &xq {
+            let r = guarded(|| -> Result<bool, String> {
+                let mut cur = Cursor::new(bytes);
+                let mut dest = [0u32; 8];
+                let n = si.get_cas_info_index_by_hash(&mut cur, h, &mut dest).map_err(|e| format!("{e:?}"))?;
+                for idx in dest.iter().take(n) {
+                    cur.seek(SeekFrom::Start(si.metadata.cas_info_offset + 48 * (*idx as u64))).map_err(|e| format!("{e:?}"))?;
+                    if let Some(c) = MDBCASInfo::deserialize(&mut cur).map_err(|e| format!("{e:?}"))? {
+                        if c.metadata.cas_hash == *h {
+                            return Ok(true);
+                        }
+                    }
+                }
+                Ok(false)
+            });
+            let res = match r {
+                Ok(Ok(true)) => "hit".to_string(),
+                Ok(Ok(false)) => "none".to_string(),
+                Ok(Err(e)) => format!("err {e}"),
+                Err(p) => format!("panic {p}"),
+            };
+            out.ev("ShExportLookup", json!({"src": src.sid, "out": outsid, "kind": "xorb", "h": ids.h(h), "res": res, "rec": {}}));
+        }
+    }
+}
+
 fn scan_all(ids: &mut Ids, out: &mut Out, sid: &str, bytes: &[u8]) {
     // seekable reader
     match guarded(|| listing(ids, bytes)) {
@@ -1008,6 +1058,7 @@ fn run_keyed(ctl: &Arc<Ctl>, rng: &mut Rng_, ids: &mut Ids, out: &mut Out, n: us
                                 "n_file_lookup": l["n_file_lookup"], "n_cas_lookup": l["n_cas_lookup"], "n_chunk_lookup": l["n_chunk_lookup"]})),
                             Err(e) => out.ev("ShError", json!({"what": format!("export unreadable: {e}")})),
                         }
+                        export_lookups(ids, out, &m, &sid, &bytes, inc_f, inc_c, &pool, rng);
                         // dedup through the manager with unkeyed hashes: same answers as the original
                         let qs = queries(rng, &pool, &[&m], 12);
                         let r: Result<(), String> = rt.block_on(async {
@@ -1052,6 +1103,9 @@ fn run_keyed(ctl: &Arc<Ctl>, rng: &mut Rng_, ids: &mut Ids, out: &mut Out, n: us
                     },
                     Ok(Err(e)) => out.ev("ShError", json!({"what": format!("streaming export: {e:?}")})),
                     Err(p) => out.ev("ShPanic", json!({"what": format!("streaming export: {p}")})),
+                }
+                if !outb.is_empty() {
+                    export_lookups(ids, out, &m, &format!("{sid}s"), &outb, inc_f, inc_c, &pool, rng);
                 }
             }
         }
@@ -1202,6 +1256,9 @@ pub fn run(a: &Args) -> anyhow::Result<String> {
             let mut k = v["ev"].as_str().unwrap_or("").to_string();
             if k == "ShLookup" {
                 k = format!("ShLookup:{}:{}", v["kind"].as_str().unwrap_or(""), v["res"].as_str().unwrap_or("").split(' ').next().unwrap_or(""));
+            }
+            if k == "ShExportLookup" {
+                k = format!("ShExportLookup:{}:{}", v["kind"].as_str().unwrap_or(""), v["res"].as_str().unwrap_or("").split(' ').next().unwrap_or(""));
             }
             if k == "ShDedup" {
                 k = format!("ShDedup:{}:{}", v["impl"].as_str().unwrap_or(""), if v["ans"]["found"].as_bool() == Some(true) { "found" } else { "none" });
